@@ -21,7 +21,7 @@ import (
 func TestC02Stateful(t *testing.T) {
 	theT = t
 	col := ev.New("C02", "stateful",
-		"rapid state machine (same generator as C01, weighted towards the public transfer) on committees of 1 and 3; per transaction: every account whose balance fell witnessed the transaction, is the calling contract, or the Alphabet signed; non-trivial = history containing a non-zero transfer attempt whose signer set is not exactly {from}",
+		"rapid state machine (same generator as C01, weighted towards the public transfer) on committees of 1 and 3, in one case of three with fewer consensus nodes than committee members (their multisignature is one more signer that is not the Alphabet), with a re-election of the whole committee by NEO votes somewhere in the history (afterwards one Alphabet-only call in four is signed by the former Alphabet account); per transaction: every account whose balance fell witnessed the transaction, is the calling contract, or the Alphabet signed; non-trivial = history containing a non-zero transfer attempt whose signer set is not exactly {from}",
 		"Alphabet-only methods receive well-formed 20-byte addresses", "lock targets are fresh addresses")
 	runRapid(t, col, func(rt *rapid.T, h *ev.History) {
 		n := rapid.SampledFrom([]int{1, 3}).Draw(rt, "n")
@@ -37,7 +37,7 @@ func TestC02Stateful(t *testing.T) {
 			w.do(op, w.bal, "mint", u.ScriptHash(), op.amount, []byte("init"))
 		}
 		w.do(&balOp{kind: "mint", amount: bi(77), signers: w.c.Both(), desc: "mint(actor,77)"}, w.bal, "mint", w.actor, bi(77), []byte("init"))
-		kinds := []string{"transfer", "transfer", "transfer", "transfer", "transfer", "transferX", "mint", "mint", "burn", "lock", "newEpoch", "tick"}
+		kinds := []string{"transfer", "transfer", "transfer", "transfer", "transfer", "transferX", "transferX", "mint", "mint", "burn", "burn", "lock", "newEpoch", "tick", "reelect"}
 		steps := rapid.IntRange(1, 25).Draw(rt, "steps")
 		for i := 0; i < steps; i++ {
 			w.balStep(rt, kinds)
